@@ -422,8 +422,24 @@ def r7_cache_keys_complete(repo=None):
                           and isinstance(n.targets[0], ast.Subscript) and (pyfront.dotted(n.targets[0].value) or "").startswith("self.")]
                 for st in stores:
                     memo = pyfront.dotted(st.targets[0].value)
-                    hits = [x for x in pyfront.walk_no_nested(fn) if isinstance(x, ast.Return) and isinstance(x.value, ast.Subscript)
-                            and pyfront.dotted(x.value.value) == memo]
+                    # look-ups of the memo: `return memo[K]`, `memo.get(K)`, `x = memo[K]` (the store itself excluded)
+                    class _Hit(object):
+                        def __init__(self, key):
+                            self.value = ast.Subscript(value=ast.Name("memo", ast.Load()), slice=key, ctx=ast.Load())
+                    hits = []
+                    returned = {x.value.id for x in pyfront.walk_no_nested(fn) if isinstance(x, ast.Return) and isinstance(x.value, ast.Name)}
+                    for x in pyfront.walk_no_nested(fn):
+                        if isinstance(x, ast.Return) and isinstance(x.value, ast.Subscript) and pyfront.dotted(x.value.value) == memo:
+                            hits.append(_Hit(x.value.slice))
+                        elif isinstance(x, ast.Assign) and len(x.targets) == 1 and isinstance(x.targets[0], ast.Name) and x.targets[0].id in returned \
+                                and isinstance(st.value, ast.Name) and st.value.id == x.targets[0].id:
+                            # `v = memo.get(K)` / `v = memo[K]` ... `memo[K] = v` ... `return v`
+                            v_ = x.value
+                            if isinstance(v_, ast.Subscript) and pyfront.dotted(v_.value) == memo:
+                                hits.append(_Hit(v_.slice))
+                            elif isinstance(v_, ast.Call) and isinstance(v_.func, ast.Attribute) and v_.func.attr == "get" \
+                                    and pyfront.dotted(v_.func.value) == memo and v_.args:
+                                hits.append(_Hit(v_.args[0]))
                     if not hits:
                         continue
                     n_sites += 1
